@@ -204,6 +204,19 @@ CHECKS = {
              "own properties (C02, C10, C11) and are exercised here on the implementation only. Decoders that reject several blocks per row are "
              "paired only with modems whose bits per symbol divide n.",
         technique="Coq proof (assume/guarantee composition of proved component theorems; ordered-field geometry on rationals) + kernel-evaluated hypotheses on published matrices/tables + model/implementation correspondence on ChannelCodeModel runs"),
+    "C20": dict(
+        text="Coq theorems about the functional model of a per-sample component (the function it applies to one item / block; batched entry points map and "
+             "blockwise): the batch result is the stack of the single results position by position, the answer for a member does not depend on the other "
+             "members nor on its position, any permutation of the batch permutes the results, batch of one = the single call, batches split anywhere; along "
+             "the last dimension the answer for l1 ++ l2 is the answer for l1 followed by the answer for l2 (grouping of blocks does not matter), a single "
+             "block is answered by the block function, rows are independent, a length that is not a whole number of blocks is rejected. The layout law is "
+             "evaluated by the kernel on each component's own single-block answers and compared with its (B, b*n) output. Partial: statelessness across "
+             "calls and in-place modification of the argument cannot be expressed by a pure model and are decided by the call-history oracle on the real objects.",
+        design="6/C20",
+        note="Trusted: Coq kernel + vm_compute; models Batch/Pure.v and Base/Layout.v; all theorems closed under the global context (no axioms). The reference "
+             "answer of a member is the component's own answer on a batch of one; floating-point components compared with relative tolerance 2e-5; layouts a "
+             "component rejects with an exception are counted, not judged.",
+        technique="Coq proof (list induction; permutations) + kernel-evaluated layout law on the component's own single-block answers + batch / permutation / layout / call-history oracle on the implementation"),
     "C10": dict(
         text="Coq theorems over exact rationals: the Wagner decoder returns, for EVERY non-empty real input (ties included), an even-parity "
              "word of maximum correlation (ML for the single-parity-check code); flooding BP / min-sum on ANY parity-check matrix returns the "
